@@ -91,6 +91,24 @@ def check_model(ctx, fm, idx):
         ctx.violation("concrete", "custom score function is not applied to (data, reconstruction) with its keywords",
                       {"signature": "score-custom-function", **base})
         return
+    # the caller re-uses its data buffer (a noise sweep writing each noisy record into the same array): a score is a function of the
+    # data it is given NOW, whatever was scored before under the same array object
+    buf = Xt.copy()
+    try:
+        model.score(buf)
+        buf *= rng.choice([0.5, 2.0, -1.0])
+        buf[0] += np.array([rng.randint(1, 6) for _ in range(n)], dtype=float)
+        sc2 = float(model.score(buf))
+        want2 = -rmse(np.asarray(model.predict(buf[:, S])), buf)
+        ctx.count("score_after_inplace_update_of_the_same_array")
+        if not close(sc2, want2):
+            ctx.violation("concrete", f"score of an array that was updated in place since it was last scored is {sc2!r}, minus the RMSE "
+                                      f"of its reconstruction is {want2!r}",
+                          {"signature": "score-definition:stale-after-inplace-update", **base, "observed": sc2, "required": want2})
+            return
+    except Exception as e:
+        ctx.violation("concrete", f"score raised {type(e).__name__}: {e}", {"signature": "score-raises", **base})
+        return
     if want != 0:
         ctx.nontriv(("score", desc["basis"], desc["opt"], (n, m), ns))
     # ---- reconstruction_error -------------------------------------------------------------------
